@@ -145,6 +145,17 @@ def runCall (I : Integ) (MC : MCInteg) : Call → Except Err Rat
 /-- a sequence of calls in one process: the C++ functions keep no state between calls -/
 def runSeq (I : Integ) (MC : MCInteg) (calls : List Call) : List (Except Err Rat) := calls.map (runCall I MC)
 
+def valueOf (r : Except Err Rat) : Rat := match r with | .ok v => v | .error _ => 0
+
+/-- re-entrant use of the named 1-D front end: the integrand of `Integrate(F, a, b, name1, p1)` is itself
+    `F x = Integrate(g x, lo x, hi x, name2, p2)` — another (or the same) method with another parameter and limits
+    that may depend on the outer variable.  No call keeps state, so the inner calls cannot disturb the outer rule. -/
+def nestedCall (I : Integ) (name1 : String) (p1 : Int) (name2 : String) (p2 : Int) (g : Rat → Rat → Rat)
+    (lo hi : Rat → Rat) (a b : Rat) : Except Err Rat :=
+  match parseMethod name2 with
+  | none => if a = b ∧ (parseMethod name1).isSome then .ok 0 else .error .diag   -- the first inner call stops the process
+  | some _ => integrate1D I name1 p1 (fun x => valueOf (integrate1D I name2 p2 (g x) (lo x) (hi x))) a b
+
 abbrev Vec3 := Rat × Rat × Rat
 
 /-- the integrand the spherical overload hands to the Cartesian one: `r² · f(Spherical_Coordinates(r, acos c, φ))` -/
